@@ -238,6 +238,29 @@ def tree_cases(run, rng, k):
                             catoracle.check_subsamples(run, got, truth, slabs, cleaned, AB, masks=masks, desc=dict(desc, check='filter'), key_prefix='filter-subsample')
                 if run.too_many():
                     return
+        # passthrough loads (raw column names) with a filter: the filter sees the raw table, the kept rows are the masked unfiltered rows
+        if k % 2 == 0:
+            for fields, filt_col in (('all', 'N_total'), (['id', 'N_total', 'x_L2com'], 'id'), ('all', 'id')):
+                run.ev()
+                run.count('loads', 2)
+                full, e0 = catoracle.load(truth['path'], cleaned=True, passthrough=True, fields=fields)
+                desc = dict(tree=k, slab_inds=inds, passthrough=True, fields=fields, filter_on=filt_col)
+                if e0 is not None:
+                    run.violation('load-fails-' + type(e0).__name__, dict(error=str(e0)[:300], **desc))
+                    continue
+                col = np.asarray(full.halos[filt_col])
+                thr = np.median(col) if len(col) else 0
+                got, err = catoracle.load(truth['path'], cleaned=True, passthrough=True, fields=fields, filter_func=lambda h, c=filt_col, t=thr: np.asarray(h[c]) >= t)
+                if err is not None:
+                    run.violation('filter-load-fails-' + type(err).__name__, dict(error=f'{type(err).__name__}: {err}'[:300], **desc))
+                    continue
+                m = col >= thr
+                run.nt((k, 'passthrough-filter', repr(fields), filt_col))
+                rows = table_rows(full)
+                if len(got.halos) != int(m.sum()):
+                    run.violation('filter-row-count', dict(rows=len(got.halos), expected=int(m.sum()), **desc))
+                    continue
+                compare_halos(run, got.halos, {cn: v[m] for cn, v in rows.items()}, dict(desc, check='filter'), 'filter-rows-differ')
         rejections(run, truth)
     finally:
         shutil.rmtree(truth['root'], ignore_errors=True)
